@@ -21,3 +21,11 @@ pub(crate) fn mk_name_vec<const N: usize>() -> ArrayVec<HeaderName, N> {
 pub(crate) fn av_len<T, const N: usize>(v: &ArrayVec<T, N>) -> usize {
     v.len
 }
+
+/// Empty ArrayVec of any capacity (capacity inferred from the field it is assigned to).
+pub(crate) fn mk_av<T: Copy, const N: usize>(fill: T) -> ArrayVec<T, N> {
+    ArrayVec { len: 0, arr: [fill; N] }
+}
+pub(crate) fn av_cap<T, const N: usize>(_v: &ArrayVec<T, N>) -> usize {
+    N
+}
